@@ -73,6 +73,7 @@ let table : (string * (sexp -> sexp)) list = [
   ("C04", run_C04);
   ("C09", run_C09);
   ("C15", run_C15);
+  ("C16", run_C16);
 ]
 
 let () =
